@@ -7,12 +7,79 @@ mod ifaces;
 #[path = "../../simconc/simconc/src/scen.rs"]
 mod scen;
 use scen::*;
+use savefile_abi::AbiConnection;
+use savefile_derive::savefile_abi_exportable;
+use std::cell::Cell;
+use std::marker::PhantomData;
+
+/// An interface that is Send but NOT Sync, with an implementation that relies on that (unsynchronised interior
+/// mutability). A connection to it must not be shareable between threads.
+#[savefile_abi_exportable(version = 0)]
+pub trait Ticket: Send {
+    fn next(&self) -> u64;
+}
+struct TicketImpl(Cell<u64>);
+impl Ticket for TicketImpl {
+    fn next(&self) -> u64 {
+        let v = self.0.get();
+        std::thread::yield_now();
+        self.0.set(v + 1);
+        v
+    }
+}
+/// compile-time probe that compiles on every tree: is `T` Sync? (inherent method wins when the bound holds)
+struct Probe<T: ?Sized>(PhantomData<T>);
+trait NotSyncFallback {
+    fn is_sync(&self) -> bool {
+        false
+    }
+}
+impl<T: ?Sized> NotSyncFallback for Probe<T> {}
+impl<T: ?Sized + Sync> Probe<T> {
+    fn is_sync(&self) -> bool {
+        true
+    }
+}
+struct ShareAnyway<T>(T);
+unsafe impl<T> Sync for ShareAnyway<T> {}
+unsafe impl<T> Send for ShareAnyway<T> {}
+
+/// If the library lets a connection to a Send-only interface be shared (`Sync`), do what a program could then do in
+/// safe code - call it from two threads - and let Miri judge the result.
+fn send_only_interface_check() {
+    let shareable = Probe::<AbiConnection<dyn Ticket>>(PhantomData).is_sync();
+    if !shareable {
+        println!("PROBE send-only connection is not Sync");
+        return;
+    }
+    println!("PROBE send-only connection IS Sync: exercising it from two threads");
+    let conn = std::sync::Arc::new(ShareAnyway(AbiConnection::<dyn Ticket>::from_boxed_trait(Box::new(TicketImpl(Cell::new(0)))).expect("ticket")));
+    let mut hs = Vec::new();
+    for _ in 0..2 {
+        let c = conn.clone();
+        hs.push(std::thread::spawn(move || {
+            let mut v = Vec::new();
+            for _ in 0..3 {
+                v.push(c.0.next());
+            }
+            v
+        }));
+    }
+    let mut all: Vec<u64> = hs.into_iter().flat_map(|h| h.join().unwrap()).collect();
+    all.sort();
+    all.dedup();
+    if all.len() != 6 {
+        println!("RESULT-MISMATCH 6 concurrent calls on a shared connection handed out only {} distinct tickets", all.len());
+        std::process::exit(1);
+    }
+}
 
 fn main() {
     let args: Vec<String> = std::env::args().collect();
     let wl = args.get(1).expect("workload json");
     let v: serde_json::Value = serde_json::from_str(wl).expect("json");
     let w = Workload::from_json(&v);
+    send_only_interface_check();
     // concurrent execution FIRST (this process has empty caches: first use), then the same lists one after another
     let conc = scenario(&w, false);
     let seq = scenario(&w, true);
